@@ -24,7 +24,7 @@ ASSUMPTIONS = [
     "sunvox_version is the writer's identity and is left at the library's value",
 ]
 REQUIRED_LABELS = {
-    "quick": ["gap", "clone", "empty_pattern_slot", "name_straddles_32", "links", "freed_link_slot", "cells", "project_fields", "second_stage", "metamodule_nested_2_levels"],
+    "quick": ["gap", "clone", "empty_pattern_slot", "name_straddles_32", "links", "freed_link_slot", "cells", "project_fields", "second_stage", "metamodule_nested_2_levels", "project_with_more_than_255_modules"],
     "thorough": ["gap", "clone", "empty_pattern_slot", "name_straddles_32", "links", "freed_link_slot", "cells", "project_fields", "metamodule", "sampler_with_samples", "unit_changed"]
     + ["type_" + t for t in build.attachable_types()],
 }
@@ -94,7 +94,7 @@ def check_project_spec(ctx, spec):
 
     p = build.make_project(spec)
     # expected layout: spec modules at 1..n, blanked positions empty, later modules fill the lowest gaps
-    layout = ["Output"] + [ms["type"] for ms in spec["modules"]]
+    layout = ["Output"] + [ms["type"] for ms in spec["modules"]] + [None] * (spec.get("trailing_empty", 0) if not spec.get("blank") else 0)
     for i in spec.get("blank", []):
         layout[i] = None
     if spec.get("blank"):
@@ -202,6 +202,27 @@ def run_shard(ctx, desc):
         spec = draw(build.project_spec(depth=0, max_modules=3, max_patterns=1, top=True))
         spec["modules"].append(draw(build.nested_meta(max_levels=4)))
         return spec
+
+    # a song with more than 256 modules: links, notes and gaps at positions that need more than 8 bits
+    @_st.composite
+    def big(draw):
+        spec = draw(build.project_spec(depth=0, max_modules=3, max_patterns=1, top=True))
+        spec = {k: v for k, v in spec.items() if k not in ("blank", "extra_modules", "then")}
+        n0 = len(spec["modules"])
+        filler = {"type": "Amplifier", "common": {}, "sets": [], "options": [], "cmid": [], "payload": {}}
+        total = draw(_st.sampled_from([255, 256, 257, 300]))
+        spec["modules"] = spec["modules"] + [dict(filler) for _ in range(total - n0)]
+        hi = _st.integers(max(1, total - 50), total)
+        spec["links"] = list(spec.get("links", [])) + [[draw(_st.sampled_from(["c", "c", "d"])), draw(hi), draw(_st.one_of(hi, _st.just(0)))] for _ in range(draw(_st.integers(2, 10)))]
+        spec["patterns"] = list(spec["patterns"]) + [{"kind": "pattern", "tracks": 2, "lines": 2, "fields": {}, "cells": [[0, 0, [1, 0, draw(hi) + 1, 0, 0]], [1, 1, [0, 0, 0xFFFF, 0, 0]]]}]
+        return spec
+
+    def body_big(spec):
+        body(spec)
+        ctx.label("project_with_more_than_255_modules")
+
+    if not run_property(ctx, big(), body_big, 2 if ctx.tier == "quick" else 12, tag="big", bucket="project"):
+        return
 
     def body_deep(spec):
         body(spec)
